@@ -117,3 +117,89 @@ def run(ctx):
             else:
                 r.fail(rule, 'republish:lookup', 'Republish does not return a clone of the entry stored under (subscription_id, sequence_number)', detail='%s -> %s' % (k[:80], okv), loc=g[0].loc)
     r.floor('C40', 'obligations', len(r.obls), 7)
+    retained_until_acknowledged(ctx)
+
+
+def retained_until_acknowledged(ctx, rule='retained-until-acknowledged'):
+    """Republish and acknowledgement can only agree on what is retained if nothing else takes entries out of
+    retransmission_queue.  Who-may-remove: an entry leaves the queue only (a) through the acknowledgement of its own key
+    (rule acknowledge) or (b) through the clean-up remove_old_unacknowledged_notifications (entries of subscriptions that no
+    longer exist; the oldest entries beyond the size limit).  Every function that removes from the queue is one of these two or
+    is reached only from them; the &mut accessor retransmission_queue() has no caller outside tests."""
+    r, db, cg = ctx.r, ctx.db, ctx.cg
+    SUBSP = 'server::subscriptions::subscriptions::Subscriptions::'
+    ROOTS = (SUBSP + 'process_subscription_acknowledgements', SUBSP + 'remove_old_unacknowledged_notifications')
+    REM = re.compile(r'BTreeMap::(remove|remove_entry|retain|clear|pop_first|pop_last|split_off|append|extract_if|drain|first_entry|last_entry|entry)$')
+    base = lambda p: re.sub(r'(::\{closure#\d+\})+$', '', p)
+    removers = {}
+    for b in db.find_bodies_mentioning(r'.', 'retransmission_queue'):
+        if re.search(r'::tests?::', b.path):
+            continue
+        F = None
+        for c in b.calls():
+            if REM.search(c.callee) and c.args:
+                F = F or ctx.facts(b)
+                if re.search(r'[._]retransmission_queue(\(_[\d.]+\))?$', fmt_sym(b, F.sym_operand(c.args[0]))) and not c.callee.endswith('::entry'):
+                    removers.setdefault(base(b.path), []).append(c)
+    if not removers:
+        r.lost(rule, 'removers', 'no removal from retransmission_queue found'); return
+    # reverse call edges between function bodies (closures folded into their function)
+    callers = {}
+    for i, outs in cg.out.items():
+        src = base(db.instances[i].path)
+        for e in outs:
+            if e.kind in ('call', 'cha', 'generic', 'forward'):
+                dst = base(db.instances[e.dst].path)
+                if dst != src:
+                    callers.setdefault(dst, set()).add(src)
+    n = 0
+    seen = set(); work = list(removers)
+    while work:
+        f = work.pop()
+        if f in seen:
+            continue
+        seen.add(f); n += 1
+        if f in ROOTS:
+            r.ok(rule, 'remover:' + f.rsplit('::', 1)[-1], 'a reviewed remover: %s' % ('the acknowledgement of the entry\'s own key' if f.endswith('acknowledgements') else 'clean-up of dead subscriptions / overflow'), loc=(removers.get(f) or [None])[0].loc if removers.get(f) else None)
+            continue
+        cs = sorted(c for c in callers.get(f, ()) if not re.search(r'::tests?::', c))
+        bad = [c for c in cs if c not in ROOTS and c not in removers and not c.startswith(SUBSP)]
+        outside = [c for c in cs if c not in ROOTS]
+        if not cs:
+            r.fail(rule, 'remover:' + f.rsplit('::', 1)[-1], '%s takes entries out of retransmission_queue and is called from nowhere the rule knows' % f, loc=removers[f][0].loc if f in removers else None)
+        elif outside:
+            r.fail(rule, 'remover:' + f.rsplit('::', 1)[-1], '%s takes entries out of retransmission_queue and is reached from %s, which is neither the acknowledgement of the entry\'s own key nor the '
+                   'reviewed clean-up: retained notifications of live subscriptions can vanish, Republish then answers BadMessageNotAvailable and the acknowledgement BadSequenceNumberUnknown'
+                   % (f.rsplit('::', 1)[-1], ', '.join(o.rsplit('::', 1)[-1] for o in outside)), loc=removers[f][0].loc if f in removers else None)
+        else:
+            r.ok(rule, 'remover:' + f.rsplit('::', 1)[-1], 'removes entries only on behalf of %s' % ', '.join(c.rsplit('::', 1)[-1] for c in cs), loc=removers[f][0].loc if f in removers else None)
+    acc = callers.get(SUBSP + 'retransmission_queue', set())
+    acc = [c for c in acc if not re.search(r'::tests?::', c)]
+    n += 1
+    if acc:
+        r.fail(rule, 'accessor', 'the &mut accessor retransmission_queue() is called from %s: the queue can be changed outside the reviewed removers' % ', '.join(sorted(acc)), loc=None)
+    else:
+        r.ok(rule, 'accessor', 'retransmission_queue() (&mut access) has no caller outside tests')
+    # what the clean-up may select: dead subscriptions, or the oldest `len - max` entries
+    cb = db.body(SUBSP + 'remove_old_unacknowledged_notifications')
+    if cb is None:
+        r.lost(rule, 'cleanup', 'remove_old_unacknowledged_notifications not found')
+    else:
+        preds = [x for x in db.find_bodies('^' + re.escape(cb.path) + r'(::\{closure#\d+\})+$') if x.locals[0] == 'bool']
+        okp = False
+        for p_ in preds:
+            outs = bool_fn_outcomes(ctx, p_.path, True) or []
+            if outs and all(any(re.search(r'contains_key\(&self__subscriptions\(_1[\d.]*\), &.*\.0\) == False$', fmt_lit(p_, l)) for l in conj) for conj in outs):
+                okp = True
+        F = ctx.facts(cb)
+        takes = [c for c in cb.calls() if c.callee.endswith('Iterator::take')]
+        okt = len(takes) == 1 and re.search(r'SubWithOverflow|Sub ', fmt_sym(cb, F.sym_operand(takes[0].args[1]))) and 'len(' in fmt_sym(cb, F.sym_operand(takes[0].args[1])).lower() or \
+            (len(takes) == 1 and 'BTreeMap::len' in fmt_sym(cb, F.sym_operand(takes[0].args[1])))
+        n += 1
+        if okp and okt:
+            r.ok(rule, 'cleanup:selection', 'the clean-up selects entries of subscriptions that no longer exist and the oldest entries beyond the limit', loc=cb.loc)
+        else:
+            r.fail(rule, 'cleanup:selection', 'the clean-up does not select exactly (entries whose subscription is gone) and (the oldest len - max entries): dead-subscription filter %s, overflow take %s'
+                   % (okp, bool(okt)), loc=cb.loc)
+    r.count('queue_removers', n)
+    r.floor(rule, 'queue_removers', n, 4)
